@@ -579,7 +579,7 @@ def matrix_cases(names, combos):
                 steps.append({"op": "new", "spec": {"dtype": dtype if not (k == 1 and fn.startswith(("zonal_apply", "local_popularity", "local_rank")) and not dtype.startswith(("int", "uint"))) else "int32",
                                                      "data": data},
                               "layout": layout, "backend": backend, "chunks": [[2, 3], [1, 4]], "sy": 1.0, "sx": 2.0, "y0": 0.0, "x0": 5.0,
-                              "scalar_coord": True, "attrs": True, "name": "in"})
+                              "scalar_coord": True, "attrs": not (special or layout == "ro"), "name": "in"})   # some classes without any attrs (no `res` to fall back on / to be stamped)
             if fn in ("zonal_apply", "local_popularity", "local_rank"):
                 steps[0], steps[1] = steps[1], steps[0]
             for var in ((1, 2, 3, 4, 6, 11) if reg()[fn][1].get("slow") else range(12)):
